@@ -132,6 +132,12 @@ theorem smith_of_cw {v : Pairwise} (hwf : WF v) {c : Cand} (h : IsCW v c) (x : C
     have := hleast _ hdom ⟨x, rfl⟩ y hy
     exact this ▸ hy
 
+/-- the Schwartz set is contained in the Smith set -/
+theorem schwartz_subset_smith {v : Pairwise} (hwf : WF v) {c : Cand} (hc : c ∈ schwartzSet v) : c ∈ smithSet v := by
+  obtain ⟨hdom, hne, _⟩ := smith_is_least_dominating hwf
+  have hcs := (schwartz_exact hwf c).1 hc
+  exact Graph.schwartzReach_sub_dominating (fun _ _ h => Beats.asymm h) hdom (hne (List.ne_nil_of_mem hcs.1)) hcs
+
 /-! ### non-vacuity: concrete inputs of the shapes named in the property text -/
 
 /-- `a ~ b`, both beating `c` (sparse: the reverse pairs of the wins are absent) -/
